@@ -5,7 +5,7 @@ T = "GeomV.C12."
 CFG = {
     "id": "C12",
     "lean_modules": ["GeomV.C12.Proofs", "GeomV.C12.ProofsExt", "GeomV.C12.Negations", "GeomV.C12.ProofsFloat",
-                     "GeomV.C12.ProofsFloatTree", "GeomV.C12.ProofsRne", "GeomV.C12.NegationsFloat", "GeomV.C12.ProofsFloatKnn", "GeomV.C12.ProofsSort"] + c11_tie.C12_TIES,
+                     "GeomV.C12.ProofsFloatTree", "GeomV.C12.ProofsRne", "GeomV.C12.NegationsFloat", "GeomV.C12.ProofsFloatKnn", "GeomV.C12.ProofsSort", "GeomV.C12.NegationsFused"] + c11_tie.C12_TIES,
     "lean_dirs": ["C11", "C12"],
     "exe": "geomv_c12",
     "go_cmd": "c12",
@@ -33,6 +33,9 @@ CFG = {
         "specKNN_eq_by",
         # phase 4 (ProofsSort): the Swap program of Go's insertionSort induces exactly the executable model's visiting order
         "C12_insertionSwaps_stable",
+        # phase 4 (NegationsFused): geom.go compiled with fused multiply-add (Go spec; arm64, ppc64le) rounds minDist and minMaxDist
+        # differently: kernel-evaluated witness under fl2 (MINMAXDIST 7 < MINDIST 8 of the same point box, both leaves pruned, nil panic)
+        "C12_fused_unsound", "fused_id",
         # the cancellation defect (S - d1*d1 + d2*d2) as a kernel-evaluated negation on a two-binade floating format
         "Rounding.fl2", "C12_old_cancellation_unsound",
         # T1: minDist / minMaxDist regenerated from index/rtree/geom.go of the tree under test = the model's
